@@ -29,6 +29,10 @@ func checkC06(c *Ctx) {
 			Q: 4, QDen: 8, Depth: c.pick(12, 24), Simulate: true, Num: c.pick(600, 15000)}
 		c.runSketchGen(sim, mx, c.pick(8, 16), "simulated histories with encode/decode/concatenation")
 	}
+	// store level, production-size: long recorded histories in which stores with large unit-entry buffers,
+	// pages and collapsed windows are encoded and decoded into non-empty stores; TLC validates decode = merge
+	c.runStoreTraces(c.pick(40, 300), traceGenOpts{Events: c.pick(500, 2000), Kinds: []string{"paged", "paged", "dense", "sparse", "low", "high"}, Limits: []int{2, 8, 128},
+		Ops: []string{"Add", "Add", "Add", "Add", "Add", "AddWithCount", "AddRepeat", "EncDec", "EncDec", "EncDec", "Merge", "Clear", "CopyTo"}}, "decode into non-empty stores")
 }
 
 // C09 - protobuf forms round-trip and the streaming writer equals the message
